@@ -41,8 +41,10 @@ pub fn boxcox_shifted(x: f64, lambda: f64, alpha: f64) -> f64 {
 /// each of the components are in the interval (0, 1) and the components add up to 1. Larger input
 /// components correspond to larger probabilities.
 pub fn softmax(x: &[f64]) -> Vec<f64> {
-    let sum_exp: f64 = x.iter().map(|i| i.exp()).sum();
-    x.iter().map(|i| i.exp() / sum_exp).collect()
+    // shift by the maximum so that the exponentials cannot overflow (or all underflow)
+    let x_max = x.iter().fold(f64::NEG_INFINITY, |acc, i| f64::max(acc, *i));
+    let sum_exp: f64 = x.iter().map(|i| (i - x_max).exp()).sum();
+    x.iter().map(|i| (i - x_max).exp() / sum_exp).collect()
 }
 
 const ERF_P: f64 = 0.3275911;
